@@ -627,6 +627,16 @@ func (p *labPeer) quiet() bool {
 	if p.hsReturned() && p.hsErr != nil {
 		return true
 	}
+	if p.conn.isConnectionClosed() { // torn down (Close, fatal alert): its goroutines are gone or going
+		return true
+	}
+	if f := p.conn.fsm; f != nil && p.hsReturned() {
+		select {
+		case <-f.Done(): // the flight machine has exited (e.g. after a post-handshake error)
+			return p.lab.net.readerIdle(p.name)
+		default:
+		}
+	}
 	st := p.status.Load()
 	if st == fsmBusy {
 		return false
